@@ -712,12 +712,12 @@ func (l *Lowerer) lowerStruct(s *parser.StructDecl) error {
 		align, size := l.typeAlignmentAndSize(typeHandle)
 
 		// Check for explicit @align(N) attribute on the member
-		if explicitAlign := getAlignAttribute(m.Attributes); explicitAlign > 0 {
+		if explicitAlign := l.getAlignAttribute(m.Attributes); explicitAlign > 0 {
 			align = explicitAlign
 		}
 
 		// Check for explicit @size(N) attribute on the member
-		if explicitSize := getSizeAttribute(m.Attributes); explicitSize > 0 {
+		if explicitSize := l.getSizeAttribute(m.Attributes); explicitSize > 0 {
 			size = explicitSize
 		}
 
@@ -765,13 +765,11 @@ func parseAttrUint(text string) (uint32, bool) {
 }
 
 // getAlignAttribute extracts the value from an @align(N) attribute, returns 0 if not found.
-func getAlignAttribute(attrs []parser.Attribute) uint32 {
+func (l *Lowerer) getAlignAttribute(attrs []parser.Attribute) uint32 {
 	for _, attr := range attrs {
 		if attr.Name == "align" && len(attr.Args) == 1 {
-			if lit, ok := attr.Args[0].(*parser.Literal); ok {
-				if val, ok := parseAttrUint(lit.Value); ok {
-					return val
-				}
+			if val, ok := l.evalConstU32Expr(attr.Args[0]); ok {
+				return val
 			}
 		}
 	}
@@ -779,13 +777,11 @@ func getAlignAttribute(attrs []parser.Attribute) uint32 {
 }
 
 // getSizeAttribute extracts the value from a @size(N) attribute, returns 0 if not found.
-func getSizeAttribute(attrs []parser.Attribute) uint32 {
+func (l *Lowerer) getSizeAttribute(attrs []parser.Attribute) uint32 {
 	for _, attr := range attrs {
 		if attr.Name == "size" && len(attr.Args) == 1 {
-			if lit, ok := attr.Args[0].(*parser.Literal); ok {
-				if val, ok := parseAttrUint(lit.Value); ok {
-					return val
-				}
+			if val, ok := l.evalConstU32Expr(attr.Args[0]); ok {
+				return val
 			}
 		}
 	}
@@ -917,8 +913,7 @@ func (l *Lowerer) lowerGlobalVar(v *parser.VarDecl) error {
 	hasBinding := false
 	for _, attr := range v.Attributes {
 		if attr.Name == "group" && len(attr.Args) > 0 {
-			if lit, ok := attr.Args[0].(*parser.Literal); ok {
-				group, _ := parseAttrUint(lit.Value)
+			if group, ok := l.evalConstU32Expr(attr.Args[0]); ok {
 				if binding == nil {
 					binding = &ir.ResourceBinding{}
 				}
@@ -927,8 +922,7 @@ func (l *Lowerer) lowerGlobalVar(v *parser.VarDecl) error {
 			}
 		}
 		if attr.Name == "binding" && len(attr.Args) > 0 {
-			if lit, ok := attr.Args[0].(*parser.Literal); ok {
-				bind, _ := parseAttrUint(lit.Value)
+			if bind, ok := l.evalConstU32Expr(attr.Args[0]); ok {
 				if binding == nil {
 					binding = &ir.ResourceBinding{}
 				}
@@ -13092,8 +13086,7 @@ func (l *Lowerer) collectBinding(attrs []parser.Attribute) *ir.Binding {
 			}
 		case "location":
 			if len(attr.Args) > 0 {
-				if lit, ok := attr.Args[0].(*parser.Literal); ok {
-					loc, _ := parseAttrUint(lit.Value)
+				if loc, ok := l.evalConstU32Expr(attr.Args[0]); ok {
 					if locBinding == nil {
 						locBinding = &ir.LocationBinding{}
 					}
@@ -13102,8 +13095,7 @@ func (l *Lowerer) collectBinding(attrs []parser.Attribute) *ir.Binding {
 			}
 		case "blend_src":
 			if len(attr.Args) > 0 {
-				if lit, ok := attr.Args[0].(*parser.Literal); ok {
-					idx, _ := parseAttrUint(lit.Value)
+				if idx, ok := l.evalConstU32Expr(attr.Args[0]); ok {
 					if locBinding == nil {
 						locBinding = &ir.LocationBinding{}
 					}
@@ -13338,7 +13330,10 @@ func (l *Lowerer) evalConstU32Expr(expr parser.Expr) (uint32, bool) {
 			return val, true
 		}
 	case *parser.Ident:
-		// Look up named constant
+		// Look up named constant (an untyped `const N = 8;` lives in abstractConstants)
+		if info, ok := l.abstractConstants[e.Name]; ok && info.scalarValue != nil {
+			return uint32(info.scalarValue.Bits), true
+		}
 		for _, c := range l.module.Constants {
 			if c.Name == e.Name {
 				if sv, ok := c.Value.(ir.ScalarValue); ok {
